@@ -244,12 +244,61 @@ pub fn run(tier: Tier, seed: u64) -> i32 {
     closed_forms(&ev, tier, seed);
 
     super::c18::sanitizer_summary(&ev, "C19");
+    // alloc-only (serial) build computes the same values
+    if let Ok(exe) = std::env::var("VH_NOSTD") {
+        if std::path::Path::new(&exe).exists() {
+            let out = std::process::Command::new(&exe).args(["C19", "--sub", "digest", "--seed", &seed.to_string()]).output();
+            let mine = kernel_digest(seed);
+            match out {
+                Ok(o) => {
+                    let text = String::from_utf8_lossy(&o.stdout).to_string();
+                    let theirs = text.lines().find_map(|l| l.strip_prefix("DIGEST ")).map(|s| s.to_string());
+                    ev.case(&json!({"part": "serial-build-digest", "std": mine, "alloc_only": theirs}), true);
+                    ev.bucket("serial_build_compared");
+                    if theirs.as_deref() != Some(mine.as_str()) {
+                        ev.violation("C19:alloc-only-build-computes-different-values", json!({"std": mine, "alloc_only": theirs}));
+                    }
+                }
+                Err(e) => ev.extra("serial_build_not_run", json!(format!("{e}"))),
+            }
+        }
+    }
     ev.floor("domain sizes", ev.set_len("sizes") as u64, (max_log + 1) as u64);
     ev.floor("length classes", ev.set_len("length_classes") as u64, 10);
     ev.floor("pool sizes", ev.set_len("pools") as u64, tier.pick(8, 17));
     ev.floor("poly ops", ev.bucket_get("poly.cases"), 200);
     ev.floor("closed form in-domain points", ev.bucket_get("closed.in_domain"), 20);
     ev.finish()
+}
+
+/// Digest of all four transforms and a few polynomial products on seeded
+/// inputs (sizes 2^0..2^13): printed by `--sub digest`; the std build compares
+/// its own digest with the one of the alloc-only (serial) binary.
+pub fn kernel_digest(seed: u64) -> String {
+    use dusk_bytes::Serializable;
+    let mut st = blake2b_simd::Params::new().hash_length(16).to_state();
+    for log in 0..=13u32 {
+        let size = 1usize << log;
+        let mut rng = case_rng(seed, "C19.digest", log as u64);
+        let v: Vec<BlsScalar> = (0..size).map(|_| rand_scalar(&mut rng)).collect();
+        for k in KERNELS {
+            if let Ok(o) = run_kernel(k, size, &v) {
+                for x in &o {
+                    st.update(&x.to_bytes());
+                }
+            }
+        }
+        let a = &v[..v.len().min(200)];
+        for x in dv::poly_mul(a, a) {
+            st.update(&x.to_bytes());
+        }
+    }
+    hex::encode(st.finalize().as_bytes())
+}
+
+pub fn digest_workload(seed: u64) -> i32 {
+    println!("DIGEST {}", kernel_digest(seed));
+    0
 }
 
 /// Tiny serial workload for Miri (`--sub miri`, alloc-only build): the
